@@ -106,7 +106,8 @@ def gen_case(rng, for_log=False):
     case = {'enc': rng.choice([None, 'utf-8']), 'poll': rng.random() < 0.4, 'escape': esc,
             'filters': {'input': filt_in,
                         'output': filt_out},
-            'pending': rng.choice(['', '', 'PEND\xe9ing']), 'steps': steps, 'end': end, 'logs': []}
+            'pending': rng.choice(['', '', 'PEND\xe9ing']), 'steps': steps, 'end': end, 'logs': [],
+            'prior': rng.random() < 0.3}
     if for_log:
         case['interact'] = True
         case['logs'] = rng.choice([['logfile'], ['logfile_read'], ['logfile_send'],
@@ -117,6 +118,7 @@ def gen_case(rng, for_log=False):
 def run_session(case):
     """-> dict(observations) ; raises PeerError when the harness could not drive it"""
     cfg = {k: case[k] for k in ('enc', 'poll', 'escape', 'filters', 'pending', 'logs')}
+    cfg['prior'] = bool(case.get('prior'))
     S = Session(cfg)
     obs = {'returned': None, 'timeline': []}
     try:
@@ -124,6 +126,14 @@ def run_session(case):
         if S.expect_status('SPAWNED', 20) is None:
             raise PeerError('driver did not spawn the inner child')
         pup.wait_ready()
+        if case.get('prior'):
+            if S.expect_status('PRIOR', 20) is None:
+                raise PeerError('driver did not reach the earlier interact()')
+            if not S.wait_raw(10):
+                raise PeerError('outer tty never became raw (earlier session)')
+            S.type(b'\x1d')
+            if S.expect_status('PRIOR-DONE', 20) is None:
+                raise PeerError('the earlier interact() session did not end on its escape character')
         pend = case['pending'].encode('utf-8')
         if pend:
             pup.write(b'<<' + pend)
@@ -216,6 +226,10 @@ def one(case, acc):
         return v('interact-does-not-return', 'no return within 15 s after the %s' % (
             'escape character' if obs['escaped'] else 'child exit'))
     acc.count('mode_checks')
+    if case.get('prior'):
+        acc.count('second_sessions_on_one_object')
+        if d.get('prior_error') or d.get('prior_mode_restored') is False:
+            return v('tty-mode-not-restored', 'earlier session on the same object: %s' % (d.get('prior_error') or 'mode differs',))
     if not d['mode_restored']:
         return v('tty-mode-not-restored', 'before %s after %s' % (d['mode_before'], d['mode_after']))
     fin = FILTERS[case['filters']['input']]
